@@ -1,6 +1,7 @@
 package vc
 
 import (
+	"time"
 	"fmt"
 	"go/ast"
 	"go/token"
@@ -168,6 +169,11 @@ func (e *Exec) callFunc(st *State, f *ssa.Function, bindings, args []Value, pos 
 	// their contracts (to a bounded depth), so that a counterexample is
 	// consistent with what the callees really do
 	if spec := e.DB.Funcs[key]; e.ReplayInline > 0 && e.depth < e.ReplayInline && spec != nil && !spec.Trusted && !spec.Extern && spec.Records == "" && len(f.Blocks) > 0 && isRepoFunc(f) && f != e.curFn() {
+		// bounded: a function with a large call tree is replayed with contracts
+		e.replayInlined++
+		if e.replayInlined > 40 || (!e.ReplayDeadline.IsZero() && time.Now().After(e.ReplayDeadline)) {
+			e.refuse("replay: too much to inline below %s", e.fnName)
+		}
 		forceInline = true
 	}
 	if spec := e.DB.Funcs[key]; spec != nil && !spec.Inline && !forceInline && f != e.curFn() && !spec.Extern && len(f.Blocks) > 0 {
@@ -1399,7 +1405,7 @@ func (e *Exec) staleContract(f *ssa.Function, spec *FuncSpec) (why string) {
 				panic(r)
 			}
 			m := se.msg
-			for _, pat := range []string{"no field", "deref of non-pointer", "not a struct", "cannot index"} {
+			for _, pat := range []string{"no field", "cannot select field", "deref of non-pointer", "not a struct", "cannot index"} {
 				if strings.Contains(m, pat) {
 					why = m
 					return
@@ -1424,6 +1430,9 @@ func (e *Exec) staleContract(f *ssa.Function, spec *FuncSpec) (why string) {
 	}
 	for _, en := range spec.Ensures {
 		e.evalSpecBool(en, vars, st, st, "ensures")
+	}
+	for _, as := range spec.Assumes {
+		e.evalSpecBool(as, vars, st, st, "assumes")
 	}
 	return ""
 }
